@@ -184,3 +184,44 @@ func VerifStmtShapes() {
 	verifnd.Assert(ok, "composed-statement-parses")
 	verifnd.Assert(got == want, "components-in-their-slots")
 }
+
+// vpsSlots: statement templates with one expression slot (%).
+var vpsSlots = []string{
+	"%", "v = %", "a[%]", "a[0][%]", "a[%] = 1", "a[%:2]", "a[1:%]", "a[1:2:%]", "a[:%]", "a[%:]", "a[::%]", "a[%::2]", "a[:%:2]",
+	"f(x)[%:2]", "f(x)[1:%]", "f(x)[1:2:%]", "f(x)[:%]", "f(x)[%:]", "f(x)[::%]", "f(x)[%]",
+	"v = [1, %, 3]", "v = {\"k\": %}", "if % {\n}", "if a {\n} elif % {\n}", "for i = 0; %; i = i + 1 {\n}", "for i = %; i < 2; i = i + 1 {\n}",
+	"f(k = %)", "f(1, %)", "v = -%", "v = !%", "v = % in [1]", "v = 1 in %", "v, w = 1, %", "v = % * 2", "v = 2 - %", "v = % && b", "v += %",
+}
+
+// VerifParenSlots: redundant parentheses add exactly one explicit paren node each, in every
+// expression slot: the tree of the statement with `(e)` (or `((e))`) in the slot is the tree of
+// the statement with `e` in which e's subtree is wrapped in one (two) paren node(s) and nothing
+// else differs. e is chosen so that its rendering occurs exactly once in the statement's.
+func VerifParenSlots() {
+	tpl := vpsSlots[verifnd.Choice(len(vpsSlots))]
+	inner := []string{"qq + 1", "qq", "g(qq)", "qq[0]"}[verifnd.Choice(4)]
+	depth := verifnd.Int(1, 2)
+	bare := strings.Replace(tpl, "%", inner, 1)
+	wrapped := inner
+	ic, ok0 := vParseAll(inner)
+	verifnd.Assert(ok0, "component-parses")
+	wc := ic
+	for k := 0; k < depth; k++ {
+		wrapped = "(" + wrapped + ")"
+		wc = "P(" + wc + ")"
+	}
+	par := strings.Replace(tpl, "%", wrapped, 1)
+	got0, ok1 := vParseAll(bare)
+	if !ok1 {
+		verifnd.Reach("slot-rejects-this-expression")
+		return
+	}
+	verifnd.Reach("slot")
+	if strings.Count(got0, ic) != 1 {
+		verifnd.Reach("ambiguous-rendering")
+		return
+	}
+	got1, ok2 := vParseAll(par)
+	verifnd.Assert(ok2, "parenthesised-slot-parses")
+	verifnd.Assert(got1 == strings.Replace(got0, ic, wc, 1), "parentheses-add-only-paren-nodes")
+}
